@@ -25,10 +25,14 @@ META = {
                   '(datainfo / readonly / constant of an entry are those of the Param the dispatcher resolves for that name), '
                   'flags_predict (+ _readonly / _writable), constant_reads, undescribed_unreachable (read / change / do / '
                   'activate => NoSuch..., no call, node unchanged, nothing subscribed) + undescribed_module_unreachable, '
-                  'describe_stable (any history), emits_importable and described_datainfo_equiv relative to the stated '
-                  'datatype-oracle laws.  Tied to secnode.py / params.py / dispatcher.py by a correspondence run (model report '
+                  'describe_stable (any history), emits_importable / emits_importable_history (updates emitted by change AND read, '
+                  'along any history) and described_datainfo_equiv relative to the stated datatype-oracle laws, '
+                  'cache_valid + read_reply_importable (the cache only ever holds values the datatype produced, whatever module code '
+                  'assigns; read replies and snapshots are importable), class_props_derived (interface class = highest SECoP base class of the class chain, features = direct Feature '
+                  'mixins; derived by the model from the MRO given as data).  Tied to secnode.py / params.py / dispatcher.py by a correspondence run (model report '
                   '= real report) and report-vs-behaviour monitors on generated nodes and on the shipped configurations.',
-    'level_note': 'Trusted: Lean kernel + axioms; the datatype layer is an oracle (C01-C03): emits_importable and '
+    'level_note': 'Trusted: Lean kernel + axioms; the order test of a LimitsType pair is classified with the limit checks (not '
+                  'expressible in the described tuple datainfo); the datatype layer is an oracle (C01-C03): emits_importable and '
                   'described_datainfo_equiv are proved relative to explicit oracle laws and the corresponding facts are tested '
                   'on the implementation with the real client datatypes; property lists (description, group, visibility, '
                   'implementation, interface_classes, features) are data taken from the real objects; strict JSON of the report '
@@ -40,7 +44,7 @@ META = {
         'shipped configurations: driver calls are not observed there (only replies and subscriptions)',
     ],
     'modelled_not_verified': [
-        'implementation / interface_classes / features (computed from the MRO; compared as data)',
+        'implementation (compared as data); the MRO itself (Python C3 linearisation) is data from the real class',
         'main-unit substitution ($) — the datainfo is taken after configuration',
         'json.dumps of the report (strictness is tested on the implementation)',
     ],
@@ -110,6 +114,17 @@ def sweep_steps(rng, node, nodespec):
                                   'seed': rng.randrange(1 << 30)})
                 acts.append((mname, name))
         acts.append((mname, None))
+    # faults inside the module: it assigns values its own datatype refuses (wrong kind, out of range, too long, NaN),
+    # then a client reads the parameter (and the snapshot of a later `activate` is judged as well)
+    if nodespec is not None:
+        for mname, modobj in node.secnode.modules.items():
+            for attr, pobj in modobj.parameters.items():
+                if not isinstance(pobj.export, str) or pobj.constant is not None:
+                    continue
+                for raw in rng.sample(c04.BAD_RAW, 3):
+                    steps.append({'kind': 'assign', 'spec': '%s:%s' % (mname, attr), 'data': raw, 'script': 'none', 'seed': 1})
+                    steps.append({'kind': 'read', 'spec': '%s:%s' % (mname, pobj.export), 'data': None,
+                                  'script': 'value_valid', 'seed': rng.randrange(1 << 30)})
     for spec in ('zz:value', 'zz'):
         for rk in ('change', 'read', 'do'):
             steps.append({'kind': rk, 'spec': spec, 'data': None if rk != 'change' else 1, 'script': 'none', 'seed': 1})
@@ -150,14 +165,40 @@ def client_verdicts(rng, node, desc, nodespec, rec):
                     pobj.datatype.import_value(payload), previous=pobj.value))[0] == 'ok'
                 dichecks.append({'m': mname, 'a': aname, 'client': cl, 'node': nd, 'payload': canonj(payload)})
             # the cached value, as a client would get it on activation
-            r = c04.oracle_call(lambda: cdt.import_value(json.loads(json.dumps(pobj.export_value()))))
             if pobj.readerror is None:
-                imports.append({'m': mname, 'a': aname, 'ok': r[0] == 'ok', 'value': canonj(pobj.export_value())})
+                text = canonj(pobj.export_value())
+                r = c04.oracle_call(lambda: cdt.import_value(json.loads(text)))
+                imports.append({'m': mname, 'a': aname, 'ok': r[0] == 'ok', 'value': text, 'from': 'cache'})
+    def importable(cdt, text):
+        """the client can take the value over: it is strict JSON and its datatype imports it (import_value = __call__:
+        kind, length, membership; a number the hardware pushed outside min/max is importable by design)"""
+        try:
+            value = json.loads(text, parse_constant=lambda c: (_ for _ in ()).throw(ValueError(c)))
+        except Exception:
+            return False
+        return c04.oracle_call(lambda: cdt.import_value(value))[0] == 'ok'
+
     for st in rec['steps'] if rec else []:
         for em in st['obs']['emits']:
             if em[0] == 'update' and (em[1], em[2]) in clients:
-                r = c04.oracle_call(lambda: clients[(em[1], em[2])].import_value(json.loads(em[3])))
-                imports.append({'m': em[1], 'a': em[2], 'ok': r[0] == 'ok', 'value': em[3]})
+                imports.append({'m': em[1], 'a': em[2], 'ok': importable(clients[(em[1], em[2])], em[3]), 'value': em[3],
+                                'from': 'update'})
+        # the value of a read / change reply
+        if st['req'][0] in ('read', 'change') and st['obs']['reply'][0] in ('reply', 'changed') and st['req'][1]:
+            m, _, a = st['req'][1].partition(':')
+            a = a or ('value' if st['req'][0] == 'read' else 'target')
+            if (m, a) in clients:
+                imports.append({'m': m, 'a': a, 'ok': importable(clients[(m, a)], st['obs']['reply'][1]),
+                                'value': st['obs']['reply'][1], 'from': st['req'][0] + '-reply'})
+    # the snapshot a newly activated connection gets
+    conn = node.connect()
+    node.request(conn, 'activate', None, None)
+    for msg in conn.msgs:
+        em = c04.msg_obs(msg)
+        if em[0] == 'update' and (em[1], em[2]) in clients:
+            imports.append({'m': em[1], 'a': em[2], 'ok': importable(clients[(em[1], em[2])], em[3]), 'value': em[3],
+                            'from': 'snapshot'})
+    node.disconnect(conn)
     return dichecks, imports
 
 
@@ -194,7 +235,9 @@ def run_node(rng, node, box, nodespec, classes):
         node.disconnect(conn)
     dichecks, imports = client_verdicts(rng, node, desc1, nodespec, rec)
     desc2 = node.describe()
-    return {'rec': rec, 'report1': rep1, 'report2': report_json(desc2), 'activates': activates,
+    classes = [{'m': mname, 'ic': list(md.get('interface_classes', [])), 'features': list(md.get('features', []))}
+               for mname, md in desc1['modules'].items()]
+    return {'rec': rec, 'classes': classes, 'report1': rep1, 'report2': report_json(desc2), 'activates': activates,
             'dichecks': dichecks, 'imports': imports, 'strict': strict}
 
 
@@ -249,11 +292,11 @@ def run_steps_plain(node, steps):
         before = c04.cache_rows(node)
         timed_out = False
         try:
-            reply = with_timeout(5, lambda: node.request(conn, st['kind'], st['spec'], st['data']))
+            reply = with_timeout(30, lambda: node.request(conn, st['kind'], st['spec'], st['data']))
         except _Timeout:
-            # the request went into a real driver and did not return: recorded as such, the node is left alone
-            reply = ('error_' + st['kind'], st['spec'], ['Timeout', 'Timeout', {}])
-            timed_out = True
+            # the request went into a real driver and did not return (or the machine is overloaded): a time-out is
+            # never a verdict — the check ends as a harness problem (exit 2)
+            raise RuntimeError(f'request {st["kind"]} {st["spec"]} on a shipped configuration did not return within 30 s')
         data = st['data']
         wire = canonj(data) if st['kind'] == 'change' else (None if data is None else canonj(data)) if st['kind'] == 'do' else bool(data)
         out.append({'req': [st['kind'], st['spec'], wire], 'drv': 'none',
@@ -294,7 +337,7 @@ def to_requests(data):
     rec = data['rec']
     base = {'p': PID, 'node': rec['node'], 'oracle': rec['oracle']}
     return [dict(base, k='describe'),
-            dict(base, k='judge', report1=data['report1'], report2=data['report2'],
+            dict(base, k='judge', report1=data['report1'], report2=data['report2'], classes=data['classes'],
                  steps=[{'req': s['req'], 'obs': s['obs']} for s in rec['steps']],
                  activates=[{'m': a['m'], 'a': a['a'], 'reply': a['reply'], 'subsChanged': a['subsChanged']}
                             for a in data['activates'] if not a['bare']],
@@ -347,6 +390,11 @@ def evaluate(ctx, res, label, case, data, model, judge):
         mm = [(a, b) for a, b in zip(norm_report(model['report']), norm_report(data['report1'])) if a != b][:1]
         res.disagreements.append({'case': case, 'model': mm[0][0] if mm else [m['name'] for m in model['report']],
                                   'impl': mm[0][1] if mm else [m['name'] for m in data['report1']]})
+    if ctx.model_ok and model.get('classes') != data['classes']:
+        res.disagreements.append({'case': case, 'model': model.get('classes'), 'impl': data['classes']})
+    for c in data['classes']:
+        res.count('interface_class.' + (c['ic'][0] if c['ic'] else 'none'))
+        res.count('features.%d' % len(c['features']))
     # whole-module activate probes (not a (module, accessible) pair): judged here only as data for the evidence
     if judge['bad'] is not None:
         what, idx, name = judge['bad']
